@@ -15,6 +15,7 @@ import (
 func init() {
 	drivers["snap"] = driverSnap
 	drivers["fill"] = driverFill
+	drivers["fillell"] = driverFillEll
 	drivers["ctor"] = driverCtor
 }
 
@@ -341,6 +342,15 @@ func driverFill(c *Ctx) {
 		}
 		sigma["unknown_key"] = 5
 		sigma["Zz9"] = "text"
+		// ... also keys of the shape of a repeat marker that the template does not have, with values of any kind
+		switch g.pick(4) {
+		case 0:
+			sigma["..."] = "text"
+		case 1:
+			sigma["...[7]"] = ast.NewBooleanNode(true)
+		case 2:
+			sigma["...[0]"] = 1.5
+		}
 		keys := sortedKeys(sigma)
 		// abstract sigma with the variable's format
 		fmts := map[string]string{}
@@ -405,6 +415,136 @@ func driverFill(c *Ctx) {
 			c.count("fill.with-bad-value")
 		}
 		c.count("fill.cases")
+	}
+}
+
+// gitemOf reads a real item back into generator form (through the representation-level projection), so that values
+// can be chosen for the variables it has now - e.g. for the names an ellipsis expansion generated.
+func gitemOf(n *ast.VerifNode) *GItem {
+	byPos := func(vars map[string]int) map[int]string {
+		r := map[int]string{}
+		for k, p := range vars {
+			r[p] = k
+		}
+		return r
+	}
+	switch n.Kind {
+	case "none":
+		return &GItem{F: "none"}
+	case "L":
+		it := &GItem{F: "L"}
+		pv := byPos(n.Vars)
+		for i, k := range n.Items {
+			if k == nil {
+				it.Kids = append(it.Kids, &GItem{F: "", Var: pv[i]})
+			} else {
+				it.Kids = append(it.Kids, gitemOf(k))
+			}
+		}
+		return it
+	case "A":
+		if n.IsValue {
+			return &GItem{F: "A", Str: n.Str}
+		}
+		return &GItem{F: "A", IsVar: true, Var: n.VarName, Lo: n.Min, Hi: n.Max}
+	}
+	pv := byPos(n.Vars)
+	it := &GItem{}
+	cnt := 0
+	at := func(i int) interface{} { return nil }
+	switch n.Kind {
+	case "B":
+		it.F, cnt, at = "B", len(n.Bins), func(i int) interface{} { return n.Bins[i] }
+	case "BOOLEAN":
+		it.F, cnt, at = "BOOLEAN", len(n.Bools), func(i int) interface{} { return n.Bools[i] }
+	case "I":
+		it.F, cnt, at = fmt.Sprintf("I%d", n.ByteSize), len(n.Ints), func(i int) interface{} { return n.Ints[i] }
+	case "U":
+		it.F, cnt, at = fmt.Sprintf("U%d", n.ByteSize), len(n.Uints), func(i int) interface{} { return n.Uints[i] }
+	case "F":
+		it.F, cnt, at = fmt.Sprintf("F%d", n.ByteSize), len(n.Floats), func(i int) interface{} { return n.Floats[i] }
+	}
+	for i := 0; i < cnt; i++ {
+		if name, ok := pv[i]; ok {
+			it.Vals = append(it.Vals, name)
+		} else {
+			it.Vals = append(it.Vals, at(i))
+		}
+	}
+	return it
+}
+
+// fillell: a template with ellipses (and names of the shape the expansion generates) is given its repeat counts and
+// values for the names it has afterwards - in one call, and counts first then values.
+func driverFillEll(c *Ctx) {
+	for i := 0; i < c.N; i++ {
+		if !c.want(i) {
+			continue
+		}
+		g := c.gen(i)
+		g.MaxKids, g.MaxVals = 3, 3
+		g.Indexed = i%2 == 0
+		es := 0
+		var tm *GItem
+		for try := 0; try < 20; try++ {
+			es, g.varSeq, g.names = 0, 0, nil
+			tm = g.treeEll(1+g.pick(3), &es)
+			if tm.F == "L" && es > 0 {
+				break
+			}
+		}
+		if tm.F != "L" {
+			tm = &GItem{F: "L", Kids: []*GItem{tm}}
+		}
+		var enames []string
+		ellNames(tm, &enames)
+		counts := map[string]interface{}{}
+		cj := []interface{}{}
+		sortStrings(enames)
+		for _, n := range enames {
+			if g.pick(4) != 0 {
+				k := g.pick(4)
+				counts[n] = k
+				cj = append(cj, J{"k": chars(n), "n": k})
+			}
+		}
+		t := tm.Build()
+		ev := J{"ev": "fillell", "tmpl": observe(t), "cnt": cj, "sigma": []interface{}{}}
+		var expanded ast.ItemNode
+		ev["expand"], expanded = outcomeOf(func() ast.ItemNode { return t.FillVariables(counts) })
+		all := map[string]interface{}{}
+		for k, v := range counts {
+			all[k] = v
+		}
+		values := map[string]interface{}{}
+		if expanded != nil {
+			gt := gitemOf(ast.VerifProject(expanded))
+			values = g.fillValues(gt, nil)
+			for _, n := range gt.VarNames() {
+				if g.pick(4) == 0 {
+					delete(values, n)
+				}
+			}
+			fmts := map[string]string{}
+			collectFormats(gt, fmts)
+			sj := []interface{}{}
+			for _, k := range sortedKeys(values) {
+				sj = append(sj, J{"k": chars(k), "v": valueJ(fmts[k], values[k])})
+				all[k] = values[k]
+			}
+			ev["sigma"] = sj
+		}
+		if g.pick(3) == 0 {
+			// a key of the shape of a repeat marker that the template does not have is an unknown key like any other
+			all["...[42]"], values["...[41]"] = "text", 2.5
+		}
+		ev["once"], _ = outcomeOf(func() ast.ItemNode { return t.FillVariables(all) })
+		ev["steps"], _ = outcomeOf(func() ast.ItemNode { return t.FillVariables(counts).FillVariables(values) })
+		c.emit(i, ev)
+		c.count("fillell.cases")
+		if expanded == nil {
+			c.count("fillell.refused")
+		}
 	}
 }
 
@@ -697,6 +837,13 @@ func driverCtor(c *Ctx) {
 				},
 				"dupnestfill": func() ast.ItemNode {
 					return ast.NewListNode("zz9", n).FillVariables(map[string]interface{}{"zz9": ast.NewListNode(ast.NewUintNode(1, 1), n)})
+				},
+				// ... or by an expansion that generates a name the template already holds
+				"dupgen": func() ast.ItemNode {
+					return ast.NewListNode(ast.NewUintNode(1, n), "...", ast.NewUintNode(1, n+"[1]")).FillVariables(map[string]interface{}{"...": 1})
+				},
+				"dupgenfill": func() ast.ItemNode {
+					return ast.NewListNode(ast.NewListNode(ast.NewBooleanNode(n)), "...", ast.NewIntNode(2, n+"[0]")).FillVariables(map[string]interface{}{"...": 2, n + "[0]": 5})
 				},
 				"dupinsert": func() ast.ItemNode {
 					return ast.NewListNode("zz9", ast.NewIntNode(2, n)).FillVariables(map[string]interface{}{"zz9": ast.NewFloatNode(4, n)})
